@@ -136,6 +136,60 @@ def _load():
     return ("ok", got)
 
 
+def _load_sequence(texts):
+    """Several loads in one process, each through a new PreprocessorHexagon object, without emptying the shared dict in
+    between (what a regeneration followed by a reload does).  -> outcome of the last load, restricted to the names of
+    its own file (entries of earlier files may stay: the dict is shared by design)."""
+    _PP.behaviors = dict()
+    out = None
+    for t in texts:
+        with open(scratch_file(), "w", encoding="utf-8", newline="") as f:
+            f.write(t)
+        pp = _PP(Path("unused-by-load_insn_behavior"))
+        try:
+            pp.load_insn_behavior()
+        except Exception as e:
+            out = ("raise", type(e).__name__)
+            continue
+        got = pp.behaviors
+        out = ("ok", {k: (list(v) if isinstance(v, (list, tuple)) else v) for k, v in got.items()} if isinstance(got, dict) else got)
+    return out
+
+
+RELOAD_FILES = {
+    "plain": "insn(A2_x, { RdV = RsV; })\ninsn(A2_y, { RdV = RtV; })\n",
+    "changed": "insn(A2_x, { RdV = RsV + 1; })\ninsn(A2_y, { RdV = RtV; })\n",
+    "more": "insn(A2_x, { RdV = RsV; })\ninsn(A2_z, { f(g(RsV)); })\n",
+    "compound": "insn(J4_c, {__COMPOUND_PART1__{ P0 = 0xff; }__COMPOUND_PART1__ if (P0_NEW) { JUMP(riV); }})\n",
+    "compound-prefix": "insn(J4_c, { RdV = RsV; __COMPOUND_PART1__{ if (RsV) { P0 = 0xff; } }__COMPOUND_PART1__ JUMP(riV);})\n",
+    "malformed": "insn(A2_x, { RdV = RsV; })\ninsn(A2_w, { RdV = RtV; }\n",
+    "malformed-tail": "insn(A2_x, { RdV = RsV; }) junk\n",
+    "empty": "",
+}
+
+
+def check_reload(pair):
+    """Load file a, then file b, in one process: the second load must read b (entries of b present with b's parts,
+    a malformed b rejected) whatever was loaded before."""
+    a, b = pair
+    scratch_on()
+    out = core.fresh_call(_load_sequence, [HDR + RELOAD_FILES[a], HDR + RELOAD_FILES[b]])
+    if out[0] != "ok":
+        raise core.HarnessError("reload runner failed: %r" % (out[1:],))
+    outcome = out[1]
+    single = core.fresh_call(_load_sequence, [HDR + RELOAD_FILES[b]])[1]
+    if outcome[0] != single[0]:
+        return (a, b, "loading %s after %s %s, loading it alone %s" % (b, a, "raises %s" % outcome[1] if outcome[0] == "raise" else "succeeds", "raises %s" % single[1] if single[0] == "raise" else "succeeds"))
+    if outcome[0] == "ok":
+        for name, parts in single[1].items():
+            if outcome[1].get(name) != parts:
+                return (a, b, "entry %s of the second file is %r after the reload, %r when loaded alone" % (name, outcome[1].get(name), parts))
+        v = R.triage(R.load_conforms, HDR + RELOAD_FILES[b], ("ok", {k: v_ for k, v_ in outcome[1].items() if k in single[1]}))
+        if v is not None:
+            return (a, b, v[0])
+    return None
+
+
 def call_load(text):
     """load_insn_behavior on a real file with exactly this text (scratch_on() must be active)."""
     with open(scratch_file(), "w", encoding="utf-8", newline="") as f:
@@ -235,6 +289,9 @@ def eval_case(case):
     if kind == "load":
         scratch_on()
         return check_load(case["text"])
+    if kind == "reload":
+        v = check_reload((case["first"], case["second"]))
+        return None if v is None else (v[2], None)
     if kind.startswith("bundled"):
         scratch_off()
         for c, v in bundled_cases(None):
@@ -570,6 +627,12 @@ def run(ctx):
                 total["bundled_damaged_not_rejected"] = total.get("bundled_damaged_not_rejected", 0) + 1
         total["bundled_damaged_files"] = nd
         ctx.log("bundled variants done")
+        # ---- reloads: every ordered pair of small files loaded one after the other in one process
+        pairs = [(a, b) for a in RELOAD_FILES for b in RELOAD_FILES]
+        for (a, b), v in zip(pairs, core.pmap(check_reload, pairs, seed=ctx.seed)):
+            if v is not None:
+                ctx.report({"kind": "reload", "first": a, "second": b, "files": [RELOAD_FILES[a], RELOAD_FILES[b]], "why": v[2]}, None, what="reload: %s" % v[2])
+        total["reload_pairs"] = len(pairs)
 
         # ---- L
         names = R.NAMES
